@@ -98,7 +98,7 @@ PROPS = {
                 "Non-trivial = a solve that made >= 50 callbacks; distinct = (program, goal, configuration, entry point).",
         "min_evals": 8000, "min_nontrivial": 300,
         "require_observed": ["returned:slg:solve:", "returned:recursive:solve:", "returned:slg:solve_multiple:", "returned:slg:solve_limited:", "returned:recursive:solve_limited:"],
-        "deaths_are_violations": True, "case_timeout": 180,
+        "deaths_are_violations": True, "case_timeout": 180, "alone_timeout": 120,
         "assumptions": COMMON_ASSUME + ["termination is restated as bounded work; the bound (300000 callbacks) is >1000x the largest count seen on the unchanged tree (see gauges)"],
     },
     "C10": {
@@ -223,6 +223,39 @@ PROPS = {
         "require_observed": ["flag-seen:HAS_TY_INFER", "flag-seen:HAS_RE_INFER", "flag-seen:HAS_CT_INFER", "flag-seen:HAS_TY_PLACEHOLDER", "flag-seen:HAS_RE_PLACEHOLDER", "flag-seen:HAS_CT_PLACEHOLDER",
                              "flag-seen:HAS_FREE_LOCAL_REGIONS", "flag-seen:HAS_TY_PROJECTION", "flag-seen:HAS_TY_OPAQUE", "flag-seen:HAS_ERROR", "flag-seen:HAS_RE_ERROR", "flag-seen:HAS_FREE_REGIONS",
                              "flag-seen:HAS_RE_LATE_BOUND", "flag-seen:HAS_RE_ERASED", "head:dyn", "head:array"],
+        "assumptions": COMMON_ASSUME,
+    },
+    "C22": {
+        "level": "exploration",
+        "rule": "cases = every program{} block of /repo/tests/**/*.rs that lowers and contains only items the writer covers, plus seeded surface-syntax programs (structs/enums with flags, reprs, "
+                "variances; traits with flags, well-known attributes, associated types with bounds, GATs; positive/negative/upstream impls with associated values; opaque types; fn definitions; "
+                "where-clauses of every form) and programs of the solver generators. T2 = write_items(P1) must lower; P2 must equal P1 item by item with where-clause / bound lists compared as "
+                "sets and Implemented clauses implied by an AliasEq of the same list ignored; lowering write_items(P2) must give exactly P2. "
+                "Non-trivial = a program that went through both comparisons; distinct = the rendered text.",
+        "min_evals": 600, "min_nontrivial": 400,
+        "require_observed": ["corpus:reparsed-equivalent", "corpus:second-rendering-exact", "generated:surface:reparsed-equivalent", "generated:surface:second-rendering-exact", "items-round-tripped"],
+        "assumptions": COMMON_ASSUME + ["closures, coroutines, foreign types and custom clauses are not items the writer prints; programs containing them are skipped"],
+    },
+    "C23": {
+        "level": "exploration",
+        "rule": "cases = every program{}/goal{} group of /repo/tests/test/*.rs (first 6 goals) and seeded programs of the basic/coinductive/auto/associated-type fragments with 1-6 goals; the goals "
+                "are solved in order on ONE solver through LoggingRustIrDatabase (on top of the FaultDb guards), the wrapper's Display output must lower, and every goal solved on the logged "
+                "program (one solver, same order) must give the same displayed answer; both solvers. Non-trivial = an answer comparison; distinct = (logged text, goal, solver).",
+        "min_evals": 400, "min_nontrivial": 800,
+        "require_observed": ["corpus:logged-program-lowers", "corpus:same-answer:slg", "corpus:same-answer:recursive", "generated:basic:same-answer:slg", "generated:auto:same-answer:recursive"],
+        "case_timeout": 40, "alone_timeout": 40,
+        "assumptions": COMMON_ASSUME,
+    },
+    "C24": {
+        "level": "exploration",
+        "rule": "inputs = random characters (incl. NUL, non-ASCII), random token sequences over the vocabulary of the grammar and of the test corpus, corpus programs under 1-4 token-level "
+                "mutations (delete, duplicate, swap, replace, insert, identifier of another sort, huge integer literals, stray openers, duplicated runs), generated valid programs with injected "
+                "semantic errors (unknown names, wrong arities, kind mismatches), and mutated corpus goals lowered against their valid program; each is pushed through parse_program + "
+                "program_ir, or parse_goal + lower_goal, under catch_unwind (process death is caught by the supervisor). Refuted by any panic. "
+                "Non-trivial = an input that reached lowering (lowered or lowering error); distinct = the input text.",
+        "min_evals": 12000, "min_nontrivial": 1200,
+        "require_observed": ["random-characters:parse-error", "random-tokens:parse-error", "mutated-corpus-program:lowering-error", "generated-program-with-semantic-errors:lowering-error", "mutated-goal:goal-lowering-error", "mutated-goal:goal-lowered"],
+        "deaths_are_violations": True,
         "assumptions": COMMON_ASSUME,
     },
 }
